@@ -1731,8 +1731,28 @@ pub fn add_assoc_rows(rng: &mut Rng, rows: &mut Vec<RowSpec>) {
             r.extra.push(("fakeAssoc".into(), ExtraV::List(pick_list(rng))));
         }
     }
+    // some defs are entities (directly, so that their subtypes are too): records then reflect one or several entity
+    // defs and `compute_entity_type` has a choice to make
+    {
+        let n = rows.len();
+        for _ in 0..3 {
+            if n == 0 {
+                break;
+            }
+            let i = rng.below(n as u64) as usize;
+            let row = &mut rows[i];
+            if !matches!(row.def, DefTag::Sym(_)) {
+                continue;
+            }
+            if let IsTag::List(l) = &mut row.is {
+                if !l.contains(&Some("entity".to_string())) && rng.chance(2, 3) {
+                    l.push(Some("entity".to_string()));
+                }
+            }
+        }
+    }
     let mut new: Vec<RowSpec> = Vec::new();
-    for n in ["association", "relationship"] {
+    for n in ["association", "relationship", "entity"] {
         if !has(rows, n) {
             new.push(RowSpec::plain(n, vec![]));
         }
